@@ -2692,16 +2692,27 @@ V('c14-undo-twin-if-any', 'C14', 'R14.2', SESS,
             raise''', '''            if uids:
                 await mbx.delete(uids)
             raise''', expect='silent')
-V('c18-modutf7-lstrip-plus', 'C18', 'R18.9', MODUTF7,
+V('c18-revert-utf7-codec', 'C18', 'R18.9', MODUTF7,
+  '''    src_b64 = b2a_base64(src.encode('utf-16-be', 'surrogatepass'),
+                         newline=False)
+    return src_b64.rstrip(b'=').replace(b'/', b',')''',
   '''    src_utf7 = src.encode('utf-7')
-    return src_utf7[1:-1].replace(b'/', b',')''',
-  '''    src_utf7 = src.encode('utf-7').lstrip(b'+').rstrip(b'-')
-    return src_utf7.replace(b'/', b',')''')
-V('c18-modutf7-twin-removeprefix', 'C18', 'R18.9', MODUTF7,
-  '''    src_utf7 = src.encode('utf-7')
-    return src_utf7[1:-1].replace(b'/', b',')''',
-  '''    src_utf7 = src.encode('utf-7')
-    payload = src_utf7.removeprefix(b'+').removesuffix(b'-')
+    return src_utf7[1:-1].replace(b'/', b',')''')
+V('c18-modutf7-strip-eats-payload', 'C18', 'R18.9', MODUTF7,
+  "return src_b64.rstrip(b'=').replace(b'/', b',')",
+  "return src_b64.strip(b'=+').replace(b'/', b',')")
+V('c18-modutf7-no-comma', 'C18', 'R18.9', MODUTF7,
+  "return src_b64.rstrip(b'=').replace(b'/', b',')",
+  "return src_b64.rstrip(b'=')")
+V('c18-modutf7-utf16-le', 'C18', 'R18.9', MODUTF7,
+  "src.encode('utf-16-be', 'surrogatepass')",
+  "src.encode('utf-16-le', 'surrogatepass')")
+V('c18-modutf7-twin-local', 'C18', 'R18.9', MODUTF7,
+  '''    src_b64 = b2a_base64(src.encode('utf-16-be', 'surrogatepass'),
+                         newline=False)
+    return src_b64.rstrip(b'=').replace(b'/', b',')''',
+  '''    units = src.encode('utf-16-be', 'surrogatepass')
+    payload = b2a_base64(units, newline=False).rstrip(b'=')
     return payload.replace(b'/', b',')''', expect='silent')
 
 # ---------------------------------------------------------------- stdlib facts
